@@ -72,7 +72,7 @@ open Soa.Lp in
 /-- `collect()`: `FromIterator::from_iter` -/
 def fromIter (dr : Bool) (empty : Cols) (es : List Cols) : Model.Out :=
   match run { dr := dr, ps := [.elems es], M := methods dr empty, fuel := 2 } lp_PVec_std_iter_FromIterator_P_from_iter empty with
-  | some o => (match o.ret with | some c => { o with st := c } | none => Model.extend empty es)
+  | some o => (match o.ret with | some c => { st := c, panicked := o.panicked, ev := o.ev } | none => Model.extend empty es)
   | none => Model.extend empty es
 /-! views and iterators: the skeletons extracted from /repo applied to a value whose fields all cover the same window;
     the answer must again be the same in every field (`winOfT` / `posOfT`), else the step is `stuck`.  Where a skeleton can
